@@ -63,6 +63,7 @@ Fixpoint parse_script (fuel : nat) (l : list Z) : script * list Z :=
           let '(s1, r1) := parse_script f r in
           let '(s2, r2) := parse_script f r1 in
           (SIf cnd s1 s2, r2)
+      | 9 :: a :: off :: r => let '(s, r') := parse_script f r in (SExtCode a off s, r')
       | 7 :: v :: n :: r =>
           let '(code, r0) := popn n r in
           let '(init, r1) := parse_script f r0 in
